@@ -408,18 +408,22 @@ theorem push_creates (left : Bool) (c : Ctx) (s : State) (k e0 : Bytes) (es : Li
         (s', .done (.ok (intReply ((e0 :: es).length : Nat)))) ∧
       s'.lookup c.db k = some ⟨.list (e0 :: es), none⟩ ∧
       ∀ k2, k ≠ k2 → s'.lookup c.db k2 = s.lookup c.db k2 := by
-  -- first SetValues stores the empty list, the second the pushed elements
-  have hs1 := (setValues_single c s k (.list []) hm).1
-  have hl1 : (setValues c s [(k, .list [])]).1.lookup c.db k = some ⟨.list [], none⟩ := setValues_fresh c s k _ hm h
-  have hlive1 : (⟨.list [], none⟩ : Entry).expired c.now = false := rfl
-  have hs2 := (setValues_single c (setValues c s [(k, .list [])]).1 k (.list (e0 :: es)) hm).1
-  refine ⟨(setValues c (setValues c s [(k, .list [])]).1 [(k, .list (e0 :: es))]).1, ?_,
-    setValues_over c _ k _ _ none hm hl1, fun k2 hne => ?_⟩
-  · have hlen : ¬ (es.length + 1 + 1 + 1 < 3) := by omega
-    cases left <;>
-      simp [handlePush, hlen, pushName, name_facts, keysExist_single, h, setOrErr, hs1,
-        getValues_live _ _ _ _ hl1 hlive1, asList?, hs2]
-  · rw [setValues_other c _ k k2 _ hm hne]; exact setValues_other c s k k2 _ hm hne
+  -- the list is stored by ONE SetValues call
+  have hs1 := (setValues_single c s k (.list (e0 :: es)) hm).1
+  refine ⟨(setValues c s [(k, .list (e0 :: es))]).1, ?_, setValues_fresh c s k _ hm h,
+    fun k2 hne => setValues_other c s k k2 _ hm hne⟩
+  have hn : pushName left false = (if left then b "lpush" else b "rpush") := by cases left <;> rfl
+  rw [hn, push_absent_run left c s k e0 es h, hs1]
+  rfl
+
+/-- **the creating push is a single write**: whatever the configuration, the state after LPUSH / RPUSH on an absent key
+    is the state after one SetValues of the whole list — in particular a push that is refused for lack of memory
+    leaves nothing behind -/
+theorem push_creates_with_one_write (left : Bool) (c : Ctx) (s : State) (k e0 : Bytes) (es : List Bytes)
+    (h : s.lookup c.db k = none) :
+    ((handlePush left c (pushName left false :: k :: e0 :: es)).run c s).1 = (setValues c s [(k, .list (e0 :: es))]).1 := by
+  have hn : pushName left false = (if left then b "lpush" else b "rpush") := by cases left <;> rfl
+  rw [hn, push_absent_run left c s k e0 es h]
 
 /-- **LPUSHX / RPUSHX on a key never written fail and change nothing** -/
 theorem pushx_absent (left : Bool) (c : Ctx) (s : State) (k e0 : Bytes) (es : List Bytes)
